@@ -116,13 +116,36 @@ def model_runs(tier):
 
 
 def flat_model(v, pid, tier, invariants):
+    """MC_Flat: refinement of the flat pipeline model + model conformance: the structures the models predict (flat nodes,
+    unary attachment, priorities, prio_indices, deep nesting) are compared with the verif_dump hook of the real code.
+    A difference is MODEL-DRIFT (reported, lowers what the refinement result says about the code), never a violation."""
     n = 0
+    jobs = []
     for r in model_runs(tier):
-        n += mc_shards(v, "MC_Flat", {"T": ("<-", r["table"]), "NLeaves": r["n"], "MaxUn": r["maxun"],
-                                      "WithConst": r.get("wc", True), "BumpGuard": True},
-                       invariants, r["ns"], f"{pid}/mcflat-{r['table']}-n{r['n']}")
+        for sh in range(r["ns"]):
+            tag = f"{pid}/mcflat-{r['table']}-n{r['n']}-s{sh}"
+            cfg = work(tag + ".cfg")
+            write_cfg(cfg, {"T": ("<-", r["table"]), "NLeaves": r["n"], "MaxUn": r["maxun"], "WithConst": r.get("wc", True),
+                            "BumpGuard": True, "FoldRule": "local", "Shard": sh, "NShards": r["ns"], "Emit": True},
+                      invariants=invariants + ["EmitModel"])
+            jobs.append(lambda tag=tag, cfg=cfg: (tag,) + pipeline.gen_replay_shard("MC_Flat", cfg, tag, ["dump"]))
+    cases = drift = 0
+    for tag, res, summ, obsp in parallel(jobs):
+        if res.violated or res.error:
+            print(res.out[-3000:])
+            raise vlib.ToolError(f"model MC_Flat ({tag}) does not satisfy {res.violated or res.error}: "
+                                 "the implementation-shaped model no longer refines the reference - spec bug")
+        v.add_tlc(res, f"MC_Flat[{tag}]")
+        n += res.distinct
+        cases += summ.get("cases", 0)
+        if summ.get("drift", 0):
+            drift += summ["drift"]
+            first = open(obsp).readline()[:400]
+            v.drift.append(f"{tag}: {summ['drift']} of {summ['cases']} structures differ from FlatImpl/DeepImpl, e.g. {first}")
+    v.cov["model_conformance"] = {"structures_compared": cases, "drift": drift}
     v.notes.append(f"MC_Flat: implementation-shaped model of make_expression/prioritized_indices_flat/eval_binary/"
-                   f"compile refines the reference on {n} trees x 5 renderings (+ one redundant pair at every node)")
+                   f"compile refines the reference on {n} trees x 5 renderings (+ one redundant pair at every node); model conformance: "
+                   f"{cases} predicted structures (flat uncompiled, flat compiled, deep) compared with verif_dump, {drift} differ")
 
 
 def expr_dir_a(v, pid, tier, entries, what, sample_every=0):
